@@ -338,6 +338,7 @@ class Exec:
 
     def __init__(self, registry: Registry, contract: Contract, fn_ast=None, feas_timeout=400, lenient=False):
         self.lenient = lenient
+        self.track_keys = bool(getattr(contract, 'track_keys', False))
         self.reg = registry
         self.c = contract
         self.mod = source.load(contract.file)
@@ -1400,8 +1401,12 @@ class Exec:
         vals, truths = [], []
         base = len(st.pc)
         guard_idx = set()
+        saved_env = dict(st.env)
         for j, x in enumerate(e.values):
             snap = self._heap_snapshot(st)
+            if j > 0:
+                # later operands are evaluated knowing the earlier ones were true (and) / false (or): refine static types accordingly
+                self.narrow(e.values[j - 1], st, is_and)
             v = self.ev(x, st)
             if j > 0 and self._heap_changed(st, snap) and not self._pure_alloc_expr(x):
                 raise Unsupported('heap effect inside a short-circuit operand: ' + ast.unparse(e)[:60])
@@ -1411,6 +1416,9 @@ class Exec:
             guard_idx.add(len(st.pc))
             st.pc.append(t if is_and else z3.Not(t))
         self._guarded_eval(st, base, guard_idx)
+        for k_, v_ in saved_env.items():
+            if k_ in st.env and st.env[k_].t is v_.t:
+                st.env[k_] = v_            # undo the narrowing (the terms are unchanged; only the static types were refined)
         if all(v.ty.kind == 'bool' for v in vals):
             bs = [S.bval(v.t) for v in vals]
             return V(S.mk_bool(z3.And(*bs) if is_and else z3.Or(*bs)), S.Bool)
@@ -1602,11 +1610,9 @@ class Exec:
         if k == 'int':
             i = S.ival(v.t)
             return V(S.mk_str(z3.If(i >= 0, z3.IntToStr(i), z3.Concat(z3.StringVal('-'), z3.IntToStr(-i)))), S.Str)
-        if k == 'any':
-            self.used_trusted.add('str(x) of an untyped value: an uninterpreted function of the value')
-            sf = z3.Function('py_str', S.PyObj(), z3.StringSort())
-            return V(S.mk_str(z3.If(S.is_str(v.t), S.sval(v.t), sf(v.t))), S.Str)
-        raise Unsupported(f'str() of {v.ty}: {desc}')
+        self.used_trusted.add('str(x) of a non-str/int value: an uninterpreted function of the value (for containers: of the reference)')
+        sf = z3.Function('py_str', S.PyObj(), z3.StringSort())
+        return V(S.mk_str(z3.If(S.is_str(v.t), S.sval(v.t), sf(v.t))), S.Str)
 
     def ev_Call(self, e, st):
         outs = self.ev_call_multi(e, st)
